@@ -104,6 +104,12 @@ def run_one(worker, env_extra, timeout=300):
     for line in p.stdout.splitlines():
         if line.startswith("SIMRESULT "):
             return json.loads(line[10:])
+    if "fatal error: " in p.stdout and "github.com/snower/slock/server." in p.stdout:
+        reason = p.stdout.split("fatal error: ", 1)[1].split("\n", 1)[0].strip()
+        cls = "child_died_" + reason.replace(" ", "_")
+        prop = env_extra.get("SIM_PROP") or env_extra.get("_PROP", "")
+        return {"outcome": "violation", "hash": "fatal:" + cls, "prop": prop,
+                "violations": [{"prop": prop, "class": cls, "detail": "the simulation worker was killed by the Go runtime inside the code under test: fatal error: " + reason}]}
     return {"outcome": "harness_error", "harness_error": "no result: " + p.stdout[-1500:]}
 
 
@@ -111,7 +117,7 @@ def run_scenario(worker, scenario, tmpdir, tag="s"):
     path = os.path.join(tmpdir, "%s-%d.json" % (tag, os.getpid()))
     with open(path, "w") as f:
         json.dump({"scenario": scenario}, f)
-    return run_one(worker, {"SIM_SCENARIO": path})
+    return run_one(worker, {"SIM_SCENARIO": path, "_PROP": scenario.get("prop", "")})
 
 
 def vclass(res, prop):
